@@ -16,13 +16,14 @@ structure Variant where
   panicOnWakeClosed : Bool
   ackBeforeDrop : Bool
   oneMsgPerWake : Bool
+  fwdUnwraps : Bool      -- the library's crossbeam-forwarding handler `unwrap`s the decode result (D19)
 deriving Repr, DecidableEq
 
-def fixed : Variant := ⟨false, false, false, false⟩
-def legacy : Variant := ⟨true, true, true, true⟩
+def fixed : Variant := ⟨false, false, false, false, false⟩
+def legacy : Variant := ⟨true, true, true, true, true⟩
 /-- the variant the translator reads from `src/router.rs` now (`GenRouter`: order of statements in the wake-up and `Shutdown` arms,
 the dedicated arm for a closed wake-up channel) -/
-def codeVariant : Variant := ⟨Gen.vBreakInnerOnly, Gen.vPanicOnWakeClosed, Gen.vAckBeforeDrop, Gen.vOneMsgPerWake⟩
+def codeVariant : Variant := ⟨Gen.vBreakInnerOnly, Gen.vPanicOnWakeClosed, Gen.vAckBeforeDrop, Gen.vOneMsgPerWake, Gen.vFwdUnwraps⟩
 
 inductive RMsg | addRoute (r : Nat) | shutdown (caller : Nat)
 deriving Repr, DecidableEq
@@ -33,6 +34,8 @@ inductive Ev
   | wakeClosed              -- the wake-up channel was closed (proxy dropped)
   | msg (id tag : Nat)      -- message on the member with receiver-set id `id`
   | closed (id : Nat)       -- that member's channel closed
+  | badFwd (id : Nat)       -- a message that does not decode as the route's type, on a member whose handler is the library's
+                            -- crossbeam-forwarding closure (on a user callback route the callback gets the `Err`: an ordinary `msg`)
 deriving Repr, DecidableEq
 
 inductive Eff | invoke (r tag : Nat) | dropH (r : Nat) | ack (caller : Nat) | stop | panic
@@ -90,6 +93,10 @@ def step (V : Variant) (st : St) (e : Ev) : St :=
     match lookup st.handlers id with
     | some r => { st with handlers := st.handlers.filter (·.1 ≠ id), log := st.log ++ [.dropH r] }
     | none => { st with log := st.log ++ [.panic] }
+  | .badFwd id =>
+    match lookup st.handlers id with
+    | some _ => if V.fwdUnwraps then { st with log := st.log ++ [.panic] } else st    -- repaired: the message is dropped
+    | none => { st with log := st.log ++ [.panic] }
 
 def run (V : Variant) (st : St) (es : List Ev) : St := es.foldl (step V) st
 
@@ -100,6 +107,7 @@ def okEv (st : St) : Ev → Prop
   | .wakeClosed => True
   | .msg id _ => (lookup st.handlers id).isSome
   | .closed id => (lookup st.handlers id).isSome
+  | .badFwd id => (lookup st.handlers id).isSome
 
 def okRun (V : Variant) : St → List Ev → Prop
   | _, [] => True
@@ -116,6 +124,7 @@ inductive Op
   | addRoute (r : Nat)            -- RouterProxy::add_route (a fresh channel for route r)
   | send (r tag : Nat)            -- send on route r's channel
   | dropSender (r : Nat)          -- drop the (only) sender of route r's channel
+  | badFwd (r : Nat)              -- an undecodable message on route r, a crossbeam-forwarding route
   | shutdown
   | dropProxy
 deriving Repr, DecidableEq
@@ -147,6 +156,10 @@ def World.op (V : Variant) (w : World) : Op → World
   | .dropSender r =>
     match idOf w r with
     | some id => { w with st := step V w.st (.closed id) }
+    | none => w
+  | .badFwd r =>
+    match idOf w r with
+    | some id => { w with st := step V w.st (.badFwd id) }
     | none => w
   | .shutdown =>
     if w.flag || !w.proxyAlive then w
